@@ -208,7 +208,7 @@ class Pool2Contribute(Job):
         if self.fairness:
             self.what = base + ("the units minted never exceed the pro-rata share of what was actually DEPOSITED on either "
                                 "side (m/S <= deposit/reserve, one atto of slack for the 36->18 digit truncation)")
-            self.cover_labels = ["normal operation", "one-sided liquidity"]
+            self.cover_labels = ["one-sided liquidity"] if kind == "fairness18" else ["normal operation"]
         else:
             self.what = base + ("every contributed amount is either deposited into its vault or handed back as the change "
                                 "bucket (at most one side has change, the other bucket is dropped empty), deposits go to the "
@@ -437,7 +437,7 @@ class Pool2Contribute(Job):
         normal = z3.And(ok, d["S"] > 0, d["Rhi"] > 0, d["Rlo"] > 0)
         one = z3.And(ok, d["S"] > 0, z3.Or(d["Rhi"] == 0, d["Rlo"] == 0))
         if self.fairness:
-            return [("normal operation", normal), ("one-sided liquidity", one)]
+            return [("one-sided liquidity", one)] if self.kind == "fairness18" else [("normal operation", normal)]
         return [("normal operation with change", z3.And(normal, z3.Or(lit(res["left_hi"]) > 0, lit(res["left_lo"]) > 0))),
                 ("one-sided liquidity", one)]
 
